@@ -45,7 +45,7 @@ def build_harness():
     # content hash (atomic rename; identical builds coincide)
     tmp = os.path.join(HARNESS, "bin", "harness.build%d" % os.getpid())
     t0 = time.time()
-    p = subprocess.run(["go", "build", "-tags", "verif", "-o", tmp, "."], cwd=HARNESS, env=GOENV,
+    p = subprocess.run(["go", "build", "-buildvcs=false", "-tags", "verif", "-o", tmp, "."], cwd=HARNESS, env=GOENV,
                        stdout=subprocess.PIPE, stderr=subprocess.STDOUT, text=True)
     if p.returncode != 0:
         raise Inconclusive("harness build failed:\n" + p.stdout[-4000:])
